@@ -34,6 +34,8 @@ Unary(e) == e.B.k = "x"
 StepVerdicts(e) ==
   IF ~(Rep(e.A) /\ Rep(e.B) /\ Small(e.A) /\ Small(e.B)) THEN [p |-> "undecided", t |-> "undecided", why |-> "operand"]
   ELSE IF ~InClaim(e.op, e.meth, e.A, e.B) THEN [p |-> "outside", t |-> "outside", why |-> "claim"]
+  \* integer operands whose raw ufunc result leaves the range of their type: NumPy's wrap-around, not the units bookkeeping
+  ELSE IF ~IntFits(e.op, e.meth, e.A, e.B, e.p) THEN [p |-> "outside", t |-> "outside", why |-> "intrange"]
   ELSE IF e.op \in Discontinuous /\ ~((e.A.ex /\ e.B.ex) \/ Robust(e.op, e.meth, e.A, e.B))
        THEN [p |-> "undecided", t |-> "undecided", why |-> "jump"]
   ELSE IF RadianRaw(e.op, e.A, e.B) THEN [p |-> "undecided", t |-> "undecided", why |-> "radian"]
